@@ -56,6 +56,8 @@ def state_digests_agree(c, a, digs, line):
         return True
     c.cov["state_digests_compared"] = c.cov.get("state_digests_compared", 0) + min(len(cd), len(digs))
     for n_, (x, y) in enumerate(zip(cd, digs)):
+        if y == "-":
+            continue
         if x != y:
             c.proof_failed.append({"correspondence": "dec/internal-state", "request": line[:600], "after_call": n_, "c_digest": x, "model_digest": y,
                                    "note": "the decoder's internal state (per equation: unknown count, remaining degree, partial sum, entries; ready-counters; "
@@ -125,10 +127,19 @@ def run_sessions(c, codecs, pids, n_random, n_exh, extra_reqs=(), big=False):
                     want.append("F%d%d:%s" % (a.F[0], a.F[1], a.F[2]))
                 want.append("E" + "".join("D" if ch in "CL" else ch for ch in (a.E or "")))
                 want.append("CB" + ",".join(x[1:].split(":")[0] for x in a.CB if x.startswith("s")))
-                if j >= len(ml) or ml[j] != " ".join(want):
+                mt = ml[j].split() if j < len(ml) else []
+                digs = next((x[1:].split(".") for x in mt if x.startswith("D")), [])
+                if " ".join(x for x in mt if not x.startswith("D")) != " ".join(want):
                     c.proof_failed.append({"correspondence": "dec/rs-api", "request": lines[i][:400], "c": " ".join(want)[:600],
                                            "model": (ml[j] if j < len(ml) else "")[:600]})
                     break
+                cdig = [d for d in a.dig if d is not None] + ([a.Fdig] if a.Fdig else [])
+                if cdig and digs:
+                    c.cov["state_digests_compared"] = c.cov.get("state_digests_compared", 0) + min(len(cdig), len(digs))
+                    if cdig != digs:
+                        c.proof_failed.append({"correspondence": "dec/rs-internal-state", "request": lines[i][:400], "c": ".".join(cdig)[:800], "model": ".".join(digs)[:800],
+                                               "note": "counters (available, available sources), completion flag or availability table of the RS session differ from the API model's"})
+                        break
         if it_req:
             rc, mout, _ = vlib.sh([mexe], input="\n".join(it_req) + "\n", timeout=1800)
             ml = mout.splitlines()
